@@ -843,6 +843,132 @@ def _blocks(node):
             yield from _blocks(st)
 
 
+def expand_star_tuples(func, ref_locals: Set[str]) -> bool:
+    """`t = (a, b, c)` (t new, assigned once) used only as `f(*t)`: the call sites get the elements back"""
+    changed = False
+    for blk in list(_blocks(func)):
+        for i, st in enumerate(list(blk)):
+            if not (isinstance(st, ast.Assign) and len(st.targets) == 1 and isinstance(st.targets[0], ast.Name) and isinstance(st.value, (ast.Tuple, ast.List))):
+                continue
+            t = st.targets[0].id
+            if t in ref_locals or any(isinstance(e, ast.Starred) for e in st.value.elts):
+                continue
+            stores = [n for n in ast.walk(func) if isinstance(n, ast.Name) and n.id == t and isinstance(n.ctx, (ast.Store, ast.Del))]
+            loads = [n for n in ast.walk(func) if isinstance(n, ast.Name) and n.id == t and isinstance(n.ctx, ast.Load)]
+            starred = [n for n in ast.walk(func) if isinstance(n, ast.Starred) and isinstance(n.value, ast.Name) and n.value.id == t]
+            if len(stores) != 1 or not loads or len(loads) != len(starred):
+                continue
+            if not all(_simple(e) for e in st.value.elts):
+                continue
+            rest = blk[i + 1:]
+            here = [n for s_ in rest for n in ast.walk(s_) if isinstance(n, ast.Name) and n.id == t and isinstance(n.ctx, ast.Load)]
+            if len(here) != len(loads):
+                continue
+            last = max(k for k, s_ in enumerate(rest) if any(n in here for n in ast.walk(s_)))
+            elem_names = {n.id for e in st.value.elts for n in ast.walk(e) if isinstance(n, ast.Name)}
+            parents = {}
+            for p_ in ast.walk(func):
+                for c_ in ast.iter_child_nodes(p_):
+                    parents[c_] = p_
+
+            def chain(n):
+                out = []
+                while n is not None and n is not func:
+                    out.append(n)
+                    n = parents.get(n)
+                return list(reversed(out))
+
+            def stmt_of(n):
+                while n is not None and not isinstance(n, ast.stmt):
+                    n = parents.get(n)
+                return n
+
+            def may_precede(S, U):
+                """can statement S have executed (after the definition) before the arguments of statement U are evaluated?"""
+                if S is U:
+                    return False            # U's own targets are bound after its arguments are evaluated
+                cs, cu = chain(S), chain(U)
+                k = 0
+                while k < min(len(cs), len(cu)) and cs[k] is cu[k]:
+                    k += 1
+                common = cs[:k]
+                if any(isinstance(x, (ast.For, ast.While)) and x is not None and x in ast.walk(ast.Module(body=rest, type_ignores=[])) for x in common):
+                    return True             # both inside a loop that runs after the definition
+                if common and isinstance(common[-1], ast.If) and k < len(cs) and k < len(cu):
+                    iff = common[-1]
+                    in_body = lambda n: any(n is b or n in ast.walk(b) for b in iff.body)
+                    if in_body(cs[k]) != in_body(cu[k]):
+                        return False        # different arms of one if
+                return (getattr(S, "lineno", 0), getattr(S, "col_offset", 0)) < (getattr(U, "lineno", 0), getattr(U, "col_offset", 0))
+            use_stmts = [stmt_of(n) for n in here]
+            rebinders = [stmt_of(n) for s_ in rest[:last + 1] for n in ast.walk(s_) if isinstance(n, ast.Name) and isinstance(n.ctx, (ast.Store, ast.Del)) and n.id in elem_names]
+            if any(may_precede(S, U) for S in rebinders for U in use_stmts):
+                continue
+            for c in [n for n in ast.walk(func) if isinstance(n, ast.Call)]:
+                new_args = []
+                for a in c.args:
+                    if isinstance(a, ast.Starred) and isinstance(a.value, ast.Name) and a.value.id == t:
+                        new_args.extend(copy.deepcopy(e) for e in st.value.elts)
+                    else:
+                        new_args.append(a)
+                c.args = new_args
+            blk.remove(st)
+            if not blk:
+                blk.append(ast.Pass())
+            changed = True
+    if changed:
+        ast.fix_missing_locations(func)
+    return changed
+
+
+def unroll_literal_loops(func, ref_locals: Set[str]) -> bool:
+    """`for x in (a, b, c): body` with x a new local (or a tuple of new locals over a literal of literal tuples), no break / continue / else, body not assigning x:
+    the body is repeated with x replaced by each element"""
+    changed = False
+    for _ in range(10):
+        done = False
+        for blk in list(_blocks(func)):
+            for i, st in enumerate(list(blk)):
+                if not (isinstance(st, ast.For) and isinstance(st.iter, (ast.Tuple, ast.List)) and not st.orelse and 0 < len(st.iter.elts) <= 32):
+                    continue
+                tg = st.target
+                names = [tg.id] if isinstance(tg, ast.Name) else [e.id for e in tg.elts] if isinstance(tg, ast.Tuple) and all(isinstance(e, ast.Name) for e in tg.elts) else None
+                if not names or any(n in ref_locals for n in names):
+                    continue
+                if any(isinstance(n, (ast.Break, ast.Continue)) for b in st.body for n in ast.walk(b)):
+                    continue
+                if any(isinstance(n, ast.Name) and n.id in names and isinstance(n.ctx, (ast.Store, ast.Del)) for b in st.body for n in ast.walk(b)):
+                    continue
+                if any(isinstance(n, ast.Name) and n.id in names for s_ in blk[i + 1:] for n in ast.walk(s_)):
+                    continue            # the loop variable is read after the loop
+                out = []
+                ok = True
+                for el in st.iter.elts:
+                    if isinstance(tg, ast.Name):
+                        if not (_simple(el) or isinstance(el, ast.Constant)):
+                            ok = False
+                            break
+                        mapping = {tg.id: el}
+                    else:
+                        if not (isinstance(el, (ast.Tuple, ast.List)) and len(el.elts) == len(names) and all(_simple(x) for x in el.elts)):
+                            ok = False
+                            break
+                        mapping = dict(zip(names, el.elts))
+                    sub = _Subst(mapping)
+                    out.extend(sub.visit(copy.deepcopy(b)) for b in st.body)
+                if not ok:
+                    continue
+                blk[i:i + 1] = out
+                ast.fix_missing_locations(func)
+                done = changed = True
+                break
+            if done:
+                break
+        if not done:
+            break
+    return changed
+
+
 def normalize_tree(tree, rel: str) -> bool:
     inv = inventory().get(rel)
     if inv is None:
@@ -855,6 +981,10 @@ def normalize_tree(tree, rel: str) -> bool:
             continue
         cur = local_names(func)
         if cur - set(ref):
+            if unroll_literal_loops(func, set(ref)):
+                changed = True
+            if expand_star_tuples(func, set(ref)):
+                changed = True
             if coalesce_copies(func, set(ref)):
                 changed = True
             if substitute_temporaries(func, set(ref)):
